@@ -434,6 +434,10 @@ PROPS["C08"]["rule"] += " extra: 20 000 distinct keys pending in one batch (MaxB
 for _p in ("C01", "C02"):
     PROPS[_p]["extras"] = PROPS[_p].get("extras", []) + [{"component": "pool", "timeout": 600}]
     PROPS[_p]["rule"] += " extra (monitor only): one selection over a pool of 70 004 accounts (140 004 in thorough) judged by the same C01/C02 monitors."
+# linear-time monitor-only checks at populations beyond 65 536 entries (harness/scale)
+for _p in ("C12", "C13", "C15", "C17", "C18", "C20"):
+    PROPS[_p]["extras"] = PROPS[_p].get("extras", []) + [{"component": "scale", "timeout": 600}]
+    PROPS[_p]["rule"] += " extra (monitor only, harness/scale): 70 000 insertions into a structure of 66 000 entries judged by linear-time oracles written from the property text."
 PROPS["C16"]["coq_props"] = ["C16", "C16b"]
 PROPS["C16"]["assumptions"] = [a for a in PROPS["C16"]["assumptions"] if not a.startswith("LRU / SizeLRU / FIFOSharded satisfy cacher_laws")] + [
     "cacher_laws are PROVED for the models of the sized LRU, the plain LRU, the lruCache wrapper and the FIFO sharded cache (Props/C16b.v); those models are tied to the Go caches by the C15/C20 checks"]
